@@ -2,13 +2,13 @@ SPECIFICATION Spec
 CONSTANTS
   HDR = 2
   ENT = 1
-  N = 2
+  N = 1
   WT = {1, 2}
-  OT = {7, 8}
+  OT = {7}
   KS = {1, 2}
   AddCs = {0, 1, 9}
   RepCs <- RepCsFull
-  DescSel = {1,2,3,4,5,6,8,9,10,11,12,14,16,18}
+  DescSel = {1,2,3}
   Readers = {}
   ImplicitModes <- ImplicitRb
 INVARIANT InvWellFormed
